@@ -10,6 +10,7 @@ Precondition (S is a splitting of B, in the matching relation the code asserts):
 Postcondition: result = PRE-items ++ E_0 ++ ... ++ E_n-1 ++ remaining items, where E_k is the replacement (followed by the shared
   split item when k is not the last sub-block) if sub-block k is replaced, and the original items of the segment otherwise.
 """
+import ast
 import types
 import z3
 
@@ -67,41 +68,74 @@ def _segment_hints(it, k):
         it.path.assume(fact(sym._as_int_expr(k)))
 
 
-class _CopyLoop(LoopSpec):
-    """loops that copy items prev[idx0 + j] to the output while advancing instr_idx (prefix loop, kept-segment loop, suffix loop)"""
+def _roles(node):
+    """roles of the names in a loop of the function, read off its syntax (so that renamed locals keep their contract):
+    idx  = the name advanced by `+= 1`            acc = the name whose .append is called
+    src  = the name subscripted by idx"""
+    idx = acc = src = None
+    for n in ast.walk(node):
+        if isinstance(n, ast.AugAssign) and isinstance(n.op, ast.Add) and isinstance(n.target, ast.Name) \
+                and isinstance(n.value, ast.Constant) and n.value.value == 1 and idx is None:
+            idx = n.target.id
+    for n in ast.walk(node):
+        if isinstance(n, ast.Call) and isinstance(n.func, ast.Attribute) and n.func.attr == 'append' and isinstance(n.func.value, ast.Name) \
+                and acc is None:
+            acc = n.func.value.id
+        if isinstance(n, ast.Subscript) and isinstance(n.value, ast.Name) and isinstance(n.slice, ast.Name) and n.slice.id == idx and src is None:
+            src = n.value.id
+    return idx, acc, src
 
-    def __init__(self, kind):
-        self.kind = kind
+
+def classify(node):
+    """loop contract of rebuild_optimized_asm_block chosen by the shape of the loop"""
+    if any(isinstance(n, (ast.For, ast.While)) and n is not node for n in ast.walk(node)):
+        return None                                            # the loop over the sub-blocks is unrolled (their number is enumerated)
+    idx, acc, src = _roles(node)
+    if idx is not None and acc is not None and src is not None:
+        if isinstance(node, ast.While) and any(isinstance(n, ast.Compare) and isinstance(n.ops[0], ast.NotEq) for n in ast.walk(node.test)):
+            return _CopyLoop('prefix', idx, acc, src), 'copy-prefix'
+        return _CopyLoop('kept' if isinstance(node, ast.For) else 'suffix', idx, acc, src), 'copy-segment' if isinstance(node, ast.For) else 'copy-rest'
+    if idx is not None and acc is None and isinstance(node, ast.For):
+        return _SkipLoop(idx), 'skip-replaced-segment'
+    # any other innermost loop is held to the frame contract: it changes no list of the function
+    return _Frame(), 'no-structural-change'
+
+
+class _CopyLoop(LoopSpec):
+    """loops that copy items prev[idx0 + j] to the output while advancing the index (prefix loop, kept-segment loop, suffix loop)"""
+
+    def __init__(self, kind, idx, acc, src):
+        self.kind, self.idx_name, self.acc_name, self.src_name = kind, idx, acc, src
 
     def enter(self, it, fr):
-        self.idx0 = sym._as_int_expr(fr.locals['instr_idx'])
-        if isinstance(fr.locals['optimized_instructions'], list):
+        self.idx0 = sym._as_int_expr(fr.locals[self.idx_name])
+        if isinstance(fr.locals[self.acc_name], list):
             # the accumulator starts as a concrete (empty) list: from here on it is a rope of slices of the lists it copies from
-            fr.locals['optimized_instructions'] = Rope(ItemCodec(), [(z3.K(z3.IntSort(), x.e), z3.IntVal(0), z3.IntVal(1))
-                                                                     for x in fr.locals['optimized_instructions']])
-        self.out0 = list(fr.locals['optimized_instructions'].segs)
+            fr.locals[self.acc_name] = Rope(ItemCodec(), [(z3.K(z3.IntSort(), x.e), z3.IntVal(0), z3.IntVal(1))
+                                                          for x in fr.locals[self.acc_name]])
+        self.out0 = list(fr.locals[self.acc_name].segs)
 
     def shape(self, fr, idx):
-        prev = fr.locals['previous_instructions']
+        prev = fr.locals[self.src_name]
         return self.out0 + [(prev.arr, self.idx0, idx - self.idx0)]
 
     def havoc(self, it, fr, k):
-        fr.locals['instr_idx'] = it.path.fresh_int('idx')
-        # the invariant determines the accumulator from instr_idx: out = out0 ++ prev[idx0:idx]
-        fr.locals['optimized_instructions'].segs = self.shape(fr, sym._as_int_expr(fr.locals['instr_idx']))
+        fr.locals[self.idx_name] = it.path.fresh_int('idx')
+        # the invariant determines the accumulator from the index: out = out0 ++ prev[idx0:idx]
+        fr.locals[self.acc_name].segs = self.shape(fr, sym._as_int_expr(fr.locals[self.idx_name]))
         _segment_hints(it, k)
 
     def inv(self, it, fr, k):
-        idx = sym._as_int_expr(fr.locals['instr_idx'])
-        out = fr.locals['optimized_instructions']
-        prev = fr.locals['previous_instructions']
+        idx = sym._as_int_expr(fr.locals[self.idx_name])
+        out = fr.locals[self.acc_name]
+        prev = fr.locals[self.src_name]
         cnt = idx - self.idx0
         c = [cnt >= 0, idx <= prev.n, out.equals(self.shape(fr, idx))]
         if k is not None:
             c.append(cnt == sym._as_int_expr(k))
         if self.kind == 'prefix':
             j = z3.Int('j!pre')
-            first = fr.locals['sub_block_list'][0]
+            first = it.cfg['subs'][0]
             self.noprint = lambda t, idx=idx, prev=prev, first=first: z3.Implies(z3.And(t >= self.idx0, t < idx),
                                                                                  to_plain_fn(prev.at(t)) != first.at(z3.IntVal(0)))
             c.append(z3.ForAll([j], self.noprint(j)))
@@ -110,35 +144,51 @@ class _CopyLoop(LoopSpec):
     def exit_hints(self, it, fr):
         if self.kind != 'prefix':
             return ()
-        idx = sym._as_int_expr(fr.locals['instr_idx'])
+        idx = sym._as_int_expr(fr.locals[self.idx_name])
         cfg = it.cfg
         # instance of the precondition at the exit index, instance of the invariant at PRE
         return (cfg['pre_noprint'](idx), self.noprint(cfg['P']))
 
 
-class _NoStructuralChange(LoopSpec):
-    """for instr in optimized_instructions (restoration of PUSHLIB operands): the list structure is not modified"""
+class _Frame(LoopSpec):
+    """loops that walk over a list without changing any list of the frame (restoration of the PUSHLIB operands)"""
+
+    def enter(self, it, fr):
+        self.ropes = dict((n, list(v.segs)) for n, v in fr.locals.items() if isinstance(v, Rope))
+        self.lists = dict((n, (v.arr, v.n)) for n, v in fr.locals.items() if isinstance(v, SymList) and not isinstance(v, Rope))
 
     def havoc(self, it, fr, k):
         pass
 
     def inv(self, it, fr, k):
-        return z3.BoolVal(True)
+        c = [z3.BoolVal(True)]
+        for n, segs in self.ropes.items():
+            v = fr.locals.get(n)
+            c.append(v.equals(segs) if isinstance(v, Rope) else z3.BoolVal(False))
+        for n, (arr, ln) in self.lists.items():
+            v = fr.locals.get(n)
+            c.append(z3.And(v.n == ln, z3.BoolVal(v.arr.eq(arr))) if isinstance(v, SymList) else z3.BoolVal(False))
+        return z3.And(*c)
 
 
 class _SkipLoop(LoopSpec):
-    """for disasm in considered_sub_block of a replaced sub-block: only instr_idx advances"""
+    """for disasm in considered_sub_block of a replaced sub-block: only the index advances"""
+
+    def __init__(self, idx):
+        self.idx_name = idx
 
     def enter(self, it, fr):
-        self.idx0 = sym._as_int_expr(fr.locals['instr_idx'])
+        self.idx0 = sym._as_int_expr(fr.locals[self.idx_name])
+        self.frame = _Frame()
+        self.frame.enter(it, fr)
 
     def havoc(self, it, fr, k):
-        fr.locals['instr_idx'] = it.path.fresh_int('idx')
+        fr.locals[self.idx_name] = it.path.fresh_int('idx')
         _segment_hints(it, k)
 
     def inv(self, it, fr, k):
-        idx = sym._as_int_expr(fr.locals['instr_idx'])
-        return idx == self.idx0 + sym._as_int_expr(k)
+        idx = sym._as_int_expr(fr.locals[self.idx_name])
+        return z3.And(idx == self.idx0 + sym._as_int_expr(k), self.frame.inv(it, fr, k))
 
 
 class RebuildUnbounded(Case):
@@ -146,7 +196,9 @@ class RebuildUnbounded(Case):
     tier = 'P'
     functions = (ofs.rebuild_optimized_asm_block,)
     native_cover = True
-    timeout_ms = 30000
+    stand_in = 'rebuild_optimized_asm_block(shapes)'     # the bounded case that decides the same clauses
+    timeout_ms = 10000
+    budget_s = 240          # quick tier; x8 in the thorough tier
     max_paths = 3000
     assumptions = ("the number of sub-blocks is enumerated (1..3); all lengths (prefix, sub-blocks, replacements, suffix) are symbolic",
                    "items are opaque values observed through to_plain(); deepcopy(item) is an equal item",
@@ -155,8 +207,7 @@ class RebuildUnbounded(Case):
     def __init__(self, nsub):
         self.nsub = nsub
         self.name = "rebuild_optimized_asm_block(unbounded,%d sub-blocks)" % nsub
-        self.loops = {(QUAL, 0): _CopyLoop('prefix'), (QUAL, 2): _SkipLoop(), (QUAL, 3): _CopyLoop('kept'), (QUAL, 4): _CopyLoop('suffix'),
-                      (QUAL, 5): _NoStructuralChange()}
+        self.loops = {(QUAL, '*'): classify}
 
     def run(self, H):
         if not H.symbolic:
@@ -181,7 +232,7 @@ class RebuildUnbounded(Case):
         # prefix items do not print as the first entry of the first sub-block
         pre_noprint = lambda t: z3.Implies(z3.And(t >= 0, t < P), to_plain_fn(prev.at(t)) != subs[0].at(z3.IntVal(0)))
         H.assume(z3.ForAll([j], pre_noprint(j)))
-        H.it.cfg = dict(pre_noprint=pre_noprint, P=P, seg_facts=())
+        H.it.cfg = dict(pre_noprint=pre_noprint, P=P, seg_facts=(), subs=subs)
         H.assume(z3.Implies(P < prev.n, to_plain_fn(prev.at(P)) == subs[0].at(z3.IntVal(0))))
         seg_facts = []
         for k in range(n):
